@@ -44,6 +44,9 @@ pub enum Item {
         ret: Option<String>,
         yields: bool,
         doc: Option<String>,
+        /// signature wrapped: `def name(` / one parameter per line / `):`
+        #[serde(default)]
+        wrapped: bool,
     },
     /// `def test_<name>(params)` optionally decorated with usefixtures / indirect parametrize
     Test {
@@ -85,6 +88,7 @@ impl Item {
             ret: None,
             yields: false,
             doc: None,
+            wrapped: false,
         }
     }
     pub fn scoped(name: &str, deps: &[&str], scope: Scope) -> Item {
@@ -271,6 +275,7 @@ impl Ws {
                         ret,
                         yields,
                         doc,
+                        wrapped,
                     } => {
                         push(&mut out, "", &mut line);
                         let mut args = Vec::new();
@@ -291,7 +296,24 @@ impl Ws {
                         }
                         let def_line = line;
                         let mut s = format!("def {}(", name);
-                        for (k, d) in deps.iter().enumerate() {
+                        let wrap = *wrapped && !deps.is_empty();
+                        if wrap {
+                            push(&mut out, &s, &mut line);
+                            for d in deps.iter() {
+                                r.usages.push(UsageSite {
+                                    file: fi,
+                                    item: ii,
+                                    kind: UsageKind::FixtureParam,
+                                    name: d.clone(),
+                                    line,
+                                    start: 4,
+                                    end: 4 + d.len(),
+                                });
+                                push(&mut out, &format!("    {},", d), &mut line);
+                            }
+                            s = String::new();
+                        }
+                        for (k, d) in deps.iter().enumerate().filter(|_| !wrap) {
                             if k > 0 {
                                 s.push_str(", ");
                             }
